@@ -38,6 +38,14 @@ def run(report, db, tier):
     r5(report, db, P, cg, classes, versions)
     r6(report, db, P, cg)
     r5b(report, db, P, cg, classes, versions)
+    # "a packet of the same class": the reader is chosen by id, so two
+    # classes of one table sharing an id break the round trip of one of them
+    from ..common import borrow
+    from . import c06
+    borrow(report, 'R05.8', "the class read back is the class written: ids "
+           "are distinct within each table (C06's rules)",
+           lambda rid, c: rid in ('R06.1', 'R06.2', 'R06.3', 'R06.4'),
+           lambda sub: c06.run(sub, db, tier))
     from ..connmodel import ConnModel
     from .. import shared
     R7 = report.rule('R05.7', 'under the same version: write_packet imposes '
